@@ -188,13 +188,31 @@ def rule_N2(ctx):
     ok = kv.get("_elem_routines") == "self._routines" and kv.get("_elem_parent") == "self"
     ctx.ob("N2", bc, "children are realised with _elem_parent = self and _elem_routines = self._routines", ok, f"{kv}", inst="context-additions")
     lp = ctx.fn("smpl_extract/akai/image.py", "AkaiImageParser._load_partitions", "N2")
-    ps = [c for c in own_nodes(lp) if isinstance(c, ast.Call) and isinstance(c.func, ast.Attribute) and c.func.attr == "parse_stream"]
-    kw = {k.arg: norm(k.value) for k in ps[0].keywords} if ps else {}
-    ok = kw.get("_elem_routines") == "self._routines" and kw.get("_elem_parent") == "self" and kw.get("_elem_name") == "name"
+    from .util import evaluator as _ev2, call_parts as _cp2
+    kw, ok, n_ps = {}, True, 0
+    for p_ in run_paths(ctx, lp, rule="N2", limit=4000):
+        for c_, e_, st_ in calls_on(p_):
+            if isinstance(c_.func, ast.Attribute) and c_.func.attr == "parse_stream":
+                n_ps += 1
+                kw = _cp2(_ev2(ctx, lp, e_).ev(c_).key())[2]
+                ok = ok and kw.get("_elem_routines") == "self._routines" and kw.get("_elem_parent") == "self" and kw.get("_elem_name") not in (None, "None")
+    ok = ok and n_ps >= 1
     ctx.ob("N2", lp, "partitions are parsed with the image as parent and its routines", ok, f"{kw}", inst="partition-context")
     pc = ctx.fn("smpl_extract/util/constructs.py", "pull_child_info", "N2")
-    txt = full(pc)
-    ok = "_pull_from_context(context, '_elem_routines'" in txt and "_pull_from_context(context, '_elem_parent'" in txt and "routines=routines" in txt
+    cpar_ = pc.args.args[0].arg
+    ok, n_r = True, 0
+    for p_ in run_paths(ctx, pc, rule="N2", limit=4000):
+        if p_.end != "return" or p_.ret is None:
+            continue
+        n_r += 1
+        fn_, pos_, kw_ = _cp2(p_.ret.key())
+        from ..core import terms as _T2
+        sig_ = _T2.SIGS.get("ChildInfo") or ("parent", "parent_path", "next_path", "routines", "name")
+        for i_, v_ in enumerate(pos_):
+            if i_ < len(sig_):
+                kw_.setdefault(sig_[i_], v_)
+        ok = ok and kw_.get("routines") == f"_pull_from_context({cpar_},'_elem_routines',[])" and kw_.get("parent") == f"_pull_from_context({cpar_},'_elem_parent',None)"
+    ok = ok and n_r >= 1
     ctx.ob("N2", pc, "pull_child_info reads parent and routines from the context", ok, "", inst="pull_child_info")
     for q in ("PerformanceEntry.patch_entries", "PerformanceEntry.files"):
         f = ctx.fn("smpl_extract/roland/s7xx/performance_entry.py", q, "N2")
@@ -1652,7 +1670,9 @@ def rule_N9(ctx):
                     ok, det = False, f"the search continues in `{nv.key() if nv is not None else None}`, not in the enclosing context"
                 seen_k.add("outer")
         it_ = floops[0].iter if isinstance(floops[0], ast.For) else None
-        ok = ok and seen_k == {"found", "outer"} and it_ is not None and norm(it_) in ("range(2)",)
+        ok = ok and seen_k == {"found", "outer"} and it_ is not None and _evn(ctx, pf, {}).ev(it_).key() == "range(2)"
+        if not ok and not det:
+            det = f"lookup loop: cases {sorted(seen_k)}, levels `{norm(it_) if it_ is not None else None}`"
         # starts at the context itself; falls back to the default
         rp = [p_ for p_ in run_paths(ctx, pf, rule="N9") if p_.end == "return" and not p_.conds]
         ok = ok and all(p_.ret is not None and p_.ret.key() == dpar for p_ in run_paths(ctx, pf, rule="N9") if p_.end == "return" and not any(
@@ -1693,9 +1713,10 @@ def rule_N9(ctx):
             if len(apps) != 1:
                 ok, det = False, f"{len(apps)} entries collected per reference"
                 continue
-            X = _evn(ctx, pe, apps[0][1]).ev(apps[0][0].args[0]).key()
-            par = [v_.key() for k_, v_ in pr.env.items() if k_.endswith("._parent") and _evn(ctx, pe, pr.env).ev(ast.parse(k_[:-len("._parent")], mode="eval").body).key() == X]
-            pth = [v_ for k_, v_ in pr.env.items() if k_.endswith("._path") and _evn(ctx, pe, pr.env).ev(ast.parse(k_[:-len("._path")], mode="eval").body).key() == X]
+            nt = lambda k_: k_.replace("~", "")  # noqa: E731  (havoc marks are irrelevant inside one iteration)
+            X = nt(_evn(ctx, pe, apps[0][1]).ev(apps[0][0].args[0]).key())
+            par = [nt(v_.key()) for k_, v_ in pr.env.items() if k_.endswith("._parent") and nt(_evn(ctx, pe, pr.env).ev(ast.parse(k_[:-len("._parent")], mode="eval").body).key()) == X]
+            pth = [_TT.parse_key(nt(v_.key())) for k_, v_ in pr.env.items() if k_.endswith("._path") and nt(_evn(ctx, pe, pr.env).ev(ast.parse(k_[:-len("._path")], mode="eval").body).key()) == X]
             want_path = _TT.parse_key("self.path") + _TT.Term.atom(f"[sub({X}.path,-1)]")
             if par != ["self"] or len(pth) != 1 or pth[0] != want_path:
                 ok, det = False, f"entry `{X}` gets parent {par} and path {[v_.key() for v_ in pth]}"
